@@ -109,9 +109,6 @@ def _serialize_region_fits(region):
     # translate region class to FITS shape name
     shape = region_clsname.lower().replace('pixelregion', '')
 
-    if region.meta.get('include', None) == 0:
-        shape = f'!{shape}'
-
     region_map = {'circleannulus': 'annulus',
                   'ellipseannulus': 'elliptannulus',
                   'rectangle': 'rotbox'}
@@ -132,6 +129,11 @@ def _serialize_region_fits(region):
             if shape == 'ellipse':
                 value /= 2.0
             shape_params.append(value)
+
+    # excluded regions are marked with a leading '!' (added only after
+    # the shape name has been translated and used above)
+    if region.meta.get('include', None) == 0:
+        shape = f'!{shape}'
 
     if not shape_params:
         shape_params = 0
